@@ -73,6 +73,15 @@ def gen_arrays(ctx):
         if ctx.rng.random() < 0.5:
             m = sorted(m)
         out.append(np.array(m, dtype=dt))
+    # narrow signed types with negative entries, one to three columns (bit-packing several columns into one key must not sign-extend)
+    for _ in range(ctx.n(30, 300)):
+        dt = ctx.rng.choice([np.int8, np.int16, np.int32, np.int32]); c = ctx.rng.choice([1, 2, 2, 2, 3]); r = ctx.rng.randint(2, 7)
+        vals = ctx.rng.choice([[-1, 0, -2], [-1, 0, 1], [-128, 127, -1, 0], [-3, -2, -1]])
+        m = [[ctx.rng.choice(vals) for _ in range(c)] for _ in range(r)]
+        if ctx.rng.random() < 0.5:
+            m[ctx.rng.randrange(1, r)] = list(m[0])
+        out.append(np.array(m, dtype=dt))
+    out.append(np.array([[-1, -1], [-1, 0], [-2, -2]], dtype=np.int32))
     # unsigned entries in the upper half of the range (hashes, addresses): >= 2^63 for uint64, >= 2^31 for uint32, ...
     for dt in (np.uint64, np.uint64, np.uint32, np.uint16, np.uint8):
         bits = np.iinfo(dt).bits; top = 2 ** bits - 1; half = 2 ** (bits - 1)
